@@ -31,8 +31,12 @@ TRUSTED_BASE = [
     "argmax/argmin (any ndim >= 2 with an axis: argminmax_nd; 1-d: argminmax_1d; axis=None: argminmax_axis_none; "
     "empty reduced axis rejected: argminmax_empty_rejected), stated pointwise on index tuples (den); the plumbing steps "
     "use agent-c08's generic remapping theorems of Proofs/ShapeOpsL.v (imported read-only)",
-    "the reading of a pointwise (den-level) statement as equality of the row-major dense arrays of Spec/NpSort.v "
-    "(np_sort_axis / np_argbest_axis on todense) is checked by the judge on every generated case, not proved",
+    "Spec-as-proved = Spec-as-judged: sort_dense and argminmax_dense state res_dense (wrapper) = np_sort_axis / "
+    "np_argbest_axis (todense x) for the very functions of Spec/NpSort.v that Corr/C10Judge.v evaluates (every axis "
+    "argument, errors included), using agent-c19's Proofs/ShapeNth.v",
+    "argwhere(sort(x, axis, descending)) is run as an order-dependent observer of the raw sort result, and every sparse "
+    "result must be in canonical form (sarr_wfb), so a sort that returns unsorted coordinates with sorted=True yields "
+    "a concrete failing input",
     "correspondence harness tools/props/c10.py, tools/vlib.py, Corr/C10Judge.v, Corr/SArr.v",
 ]
 ASSUMPTIONS = [
@@ -93,7 +97,9 @@ def _run_op(sparse, np, x, op):
     if name == "where":
         r = sparse.where(x)
         return {"k": "cols", "cols": [[int(v) for v in c] for c in r]}
-    if name == "argwhere":
+    if name in ("argwhere", "sort_argwhere"):
+        if name == "sort_argwhere":
+            x = sparse.sort(x, axis=op[1], descending=op[2])
         r = np.asarray(sparse.argwhere(x))
         return {"k": "idx", "rows": [[int(v) for v in row] for row in r.reshape(-1, x.ndim)] if r.ndim == 2 else None,
                 "shape": list(r.shape)}
@@ -215,6 +221,10 @@ def ops_for(spec, fmt, with_oob):
     if fmt == "coo":
         ops.append(("nonzero",))
         ops.append(("argwhere",))
+        # an order-dependent observer of the raw sort result (the constructor is told sorted=True)
+        for ax in (axes if spec["fill"] == 0 else axes[-1:]):
+            for desc in (False, True):
+                ops.append(("sort_argwhere", ax, desc))
     if with_oob:
         ops += [("sort", nd, False), ("sort", -nd - 1, True), ("arg", True, nd, False), ("arg", False, -nd - 1, True)]
     return ops
@@ -282,6 +292,8 @@ def op_lit(op):
         return f"(OpSort {vZ(op[1])} {vbool(op[2])})"
     if op[0] == "arg":
         return f"(OpArg {vbool(op[1])} {vopt(op[2])} {vbool(op[3])})"
+    if op[0] == "sort_argwhere":
+        return f"(OpSortArgwhere {vZ(op[1])} {vbool(op[2])})"
     return {"unique_values": "OpUniqueValues", "unique_counts": "OpUniqueCounts", "nonzero": "OpNonzero",
             "argwhere": "OpArgwhere", "where": "OpWhere"}[op[0]]
 
@@ -310,6 +322,10 @@ def op_py(op):
         return f"sparse.{f}(x, axis={op[2]}, keepdims={op[3]})", f"np.{f}(d, axis={op[2]}, keepdims={op[3]})"
     if op[0] == "where":
         return "sparse.where(x)", "np.where(d)"
+    if op[0] == "sort_argwhere":
+        e = f"np.sort(d, axis={op[1]})"
+        return (f"sparse.argwhere(sparse.sort(x, axis={op[1]}, descending={op[2]}))",
+                f"np.argwhere({f'np.flip({e}, axis={op[1]})' if op[2] else e})")
     return f"sparse.{op[0]}(x)", f"np.{op[0]}(d)"
 
 
@@ -330,6 +346,7 @@ def replay_line(spec, op):
         "    try:",
         "        r = f()",
         "        print(tag, r.todense() if hasattr(r, 'todense') else r, getattr(r, 'shape', ''))",
+        "        if hasattr(r, 'coords'): print(tag, 'raw coords', r.coords.tolist(), 'data', r.data.tolist())",
         "    except Exception as e:",
         "        print(tag, 'raised', repr(e))",
         f"show('sparse:', lambda: {s})",
@@ -357,7 +374,7 @@ def tags_of(spec, op):
     shape = spec["shape"]
     nd = len(shape)
     ax = None
-    if op[0] == "sort":
+    if op[0] in ("sort", "sort_argwhere"):
         ax = op[1]
     elif op[0] == "arg":
         ax = op[2]
